@@ -39,6 +39,7 @@ type Config struct {
 	MaxViol     int
 	Stubs       map[string]string // function full name -> harness function full name
 	NoPanicViol bool
+	Params      map[string]int
 	Deadline    time.Time
 }
 
